@@ -101,14 +101,18 @@ def markLoop (h : Heap) : Nat → List Addr → List Addr → Option (List Addr)
     -- children are pushed in source order; the last pushed is popped first
     markLoop h fuel ((h.cell a).content.children.reverse ++ stack) reachable
 
-/-- the same set computed with a visited test (used by the executable driver for speed; proved equal
-as a set to `markLoop` whenever that returns) -/
-def markFast (h : Heap) : Nat → List Addr → List Addr → List Addr
-  | 0, _, reachable => reachable
-  | _, [], reachable => reachable
+/-- the same set computed with a visited test (used by the executable driver for speed: the loop as written
+revisits shared nodes once per path; both satisfy the same specification, `Props/HeapMark.lean`) -/
+def markFast (h : Heap) : Nat → List Addr → List Addr → Option (List Addr)
+  | _, [], reachable => some reachable
+  | 0, _ :: _, _ => none
   | fuel + 1, a :: stack, reachable =>
     if reachable.contains a then markFast h fuel stack reachable
     else markFast h fuel ((h.cell a).content.children.reverse ++ stack) (a :: reachable)
+
+/-- enough fuel for `markFast`: one step per stack entry ever pushed (roots plus all child edges) -/
+def markFuel (h : Heap) : Nat :=
+  h.store.foldl (fun acc c => acc + c.content.children.length + 1) 0 + h.order.size + 1
 
 /-! ### sweep -/
 
@@ -150,9 +154,9 @@ def collectWith (h : Heap) (reachable : List Addr) : Heap :=
 def collect (h : Heap) (fuel : Nat) : Option Heap :=
   (markLoop h fuel (roots h).reverse []).map (collectWith h)
 
-/-- executable collection (visited-set marking) -/
-def collectFast (h : Heap) : Heap :=
-  collectWith h (markFast h (h.store.size * 4 + 16) (roots h).reverse [])
+/-- executable collection (visited-set marking); `none`: the mark loop ran out of fuel -/
+def collectFast (h : Heap) : Option Heap :=
+  (markFast h (markFuel h) (roots h).reverse []).map (collectWith h)
 
 /-! ### allocation -/
 
@@ -171,15 +175,18 @@ def place (h : Heap) (c : Content) : Heap × Addr :=
                store := h1.store ++ Array.replicate extra ⟨Content.dflt, 0⟩ }, a)
 
 /-- `allocate_internal`; `forced`: the verification hook asks for a collection first.
-`none`: `cells.len() - 1` underflows (empty vector). -/
+`none`: `cells.len() - 1` underflows (empty vector) — or the model's mark loop ran out of fuel. -/
 def allocate (h : Heap) (c : Content) (forced : Bool) : Option (Heap × Addr) :=
   if h.order.size = 0 then none
   else
-    let h := if forced then h.collectFast else h
-    if h.order.size = 0 then none
-    else
-      let h := if h.firstFree > h.order.size - 1 then h.collectFast else h
-      some (h.place c)
+    match (if forced then h.collectFast else some h) with
+    | none => none
+    | some h =>
+      if h.order.size = 0 then none
+      else
+        match (if h.firstFree > h.order.size - 1 then h.collectFast else some h) with
+        | none   => none
+        | some h => some (h.place c)
 
 /-- allocate and hand out the first handle (`GcRef::new`) -/
 def allocHandle (h : Heap) (c : Content) (forced : Bool) : Option (Heap × Addr) :=
@@ -422,8 +429,9 @@ def step (s : HeapState) (op : HeapOp) : HeapState × HeapResp :=
       | none    => (s, .crash "handle count below zero")
     | none => (s, .notFound)
   | .collect =>
-    let h := s.heap.collectFast
-    ({ s with heap := h }, .collected h.firstFree (h.order.size - h.firstFree))
+    match s.heap.collectFast with
+    | some h => ({ s with heap := h }, .collected h.firstFree (h.order.size - h.firstFree))
+    | none   => (s, .crash "mark: out of fuel")
 
 end HeapState
 
